@@ -61,20 +61,35 @@ def check_sg_frame(ctx, it, q, sg, src, reset, label, m, fn, samplers=None):
     if ht is None:
         ctx.finding(q, "halfset column", f"{label}: no halfset column", fn, m)
     else:
-        for sid in (1, 2, 3, 10, 77, 1000, 4711):
+        # a branch taken on a property of the whole list (its size, "all rows alike", a count) is followed on both sides: the letter of a
+        # particle follows from its own subtomogram number whatever the rest of the list looks like
+        def whole_list(c_):
+            return tm.contains(c_, lambda n: n.op == "call" and (str(n.args[0]).startswith("reduce:") or str(n.args[0]) in
+                                                                 ("nrows", "len", "size", ".size", "numpy.all", "numpy.any", "numpy.unique", "unique", ".nunique")))
+        variants = [("", ht)]
+        for n in tm.walk(ht):
+            if n.op == "ite" and whole_list(n.args[0]):
+                variants = [("", ht), (f" when ({tm.show(n.args[0])[:60]}) holds", tm.subst(ht, {n: n.args[1]})),
+                            (f" when ({tm.show(n.args[0])[:60]}) does not hold", tm.subst(ht, {n: n.args[2]}))]
+                break
+        for vlabel, hv in variants:
+          for sid, other in ((1, 0), (2, 0), (3, 0), (10, 0), (77, 0), (1000, 0), (4711, 0), (2, 1), (3, 1), (10, 3), (77, 5)):
             env = {"subtomo_id": float(sid), "__salt__": 0.3}
-            for s_ in tm.symbols(ht):
-                env.setdefault(s_, float(sid))
+            for s_ in tm.symbols(hv):
+                env.setdefault(s_, float(sid + other))  # anything else the letter is computed from (a row position, another field) varies independently
             try:
-                got = tm.evaluate(ht, env)
+                got = tm.evaluate(hv, env)
                 want_sid = tm.evaluate(src["subtomo_id"], dict(env))
             except tm.EvalError as e:
                 raise Unsupported(f"halfset term not evaluable: {e}", fn)
             want = "A" if int(round(float(want_sid))) % 2 == 0 else "B"
-            got = str(np.asarray(got).item()) if not isinstance(got, str) else got
+            try:
+                got = str(np.asarray(got).item()) if not isinstance(got, str) else got
+            except ValueError as e:
+                raise Unsupported(f"halfset term does not evaluate to one letter per particle: {e}", fn)
             ctx.count(1)
             if got != want:
-                bad.append((sid, got, want))
+                bad.append((str(sid) + vlabel, got, want))
         if bad:
             node = last_store(it, sg, "halfset") or fn
             ctx.finding(q, node, f"{label}: halfset must be 'A' for even and 'B' for odd subtomogram numbers "
@@ -273,4 +288,4 @@ def _obligations():
 
 
 def obligations():
-    return _obligations() + [converters_obligation([("cryomotl.emmotl2stopgap", {"output_motl_path": K(None)}, {})]), constructors_obligation(['cryomotl.StopgapMotl']), labels_obligation("C04"), selectors_obligation("C04"), effects_obligation("C04"), plumbing_obligation("C04"), overrides_obligation("C04"), options_obligation("C04")]
+    return _obligations() + [converters_obligation([("cryomotl.emmotl2stopgap", {"output_motl_path": K(None)}, {})]), constructors_obligation(['cryomotl.StopgapMotl']), labels_obligation("C04"), selectors_obligation("C04"), effects_obligation("C04"), plumbing_obligation("C04"), overrides_obligation("C04"), options_obligation("C04"), handlers_obligation("C04")]
